@@ -181,6 +181,8 @@ class ProgGen:
             vs = sc.all("S")
             if vs and r.chance(0.5):
                 return r.choice(vs)
+            if self.wide and r.chance(0.25):
+                return r.choice(['"caf\u00e9"', '"\u2192 s1"', '"s\U0001f600"', '"\u4e2d\u6587s"'])
             return f"\"s{r.randint(0, 99)}\""
         k = r.below(5 if self.wide else 3)
         if k == 3:
